@@ -76,7 +76,7 @@ def evaluate(case):
     return Result(fails, labels, nontrivial, None, detail, score=score)
 
 
-PRES = ["list", "list", "list", "array", "dict-str", "dict-int", "names", "names-array"]
+PRES = ["list", "list", "list", "array", "dict-str", "dict-int", "names", "names-array", "dict-mixed"]
 
 
 @st.composite
